@@ -349,9 +349,12 @@ class NormalizationContext(AbstractHashQueueContext):
     def tsx_32bit_global_correction(self, qid, event: TraceEvent) -> dict:
         if "TS1" in event["args"]:
             args = event["args"]
+            # event["ts"] is the wallclock of the phase-start counter; count epochs at the time of TS1
+            ref_ts = NormalizationContext._get_ref_ts(event["name"])
+            ts1_time = event["ts"] - (int(args[ref_ts], 0) - int(args["TS1"], 0)) / self.soc_frequency
             ovc, drift, tofix = self.get_overflow_count(qid,
                                                         str(event["args"]["jobhash"]),
-                                                        event["ts"],
+                                                        ts1_time,
                                                         int(event["args"]["TS1"]))
             aiulog.log(aiulog.TRACE, "OVC: DRIFT:", event["name"], ovc, drift, tofix, self.frequency_minmax)
 
